@@ -796,7 +796,11 @@ func (h *c17Hist) render(seed uint64) []*c17Segment {
 			// a function with loops of its own - a condition-only one and a counting one, at the same
 			// nesting depth as the caller's loop: it runs exactly three times
 			var g strings.Builder
-			fmt.Fprintf(&g, "func lk%d(n%d int) int {\nk%d := 0\nfor k%d < n%d {\nk%d = k%d + 1\n}\nfor j%d := 0; j%d < 2; j%d++ {\nk%d = k%d + 1\n}\nreturn k%d\n}\n", id, id, id, id, id, id, id, id, id, id, id, id, id)
+			condLoop := fmt.Sprintf("for k%d < n%d {\nk%d = k%d + 1\n}\n", id, id, id, id)
+			countLoop := fmt.Sprintf("for j%d := 0; j%d < 2; j%d++ {\nk%d = k%d + 1\n}\n", id, id, id, id, id)
+			// which loop the callee runs LAST differs (a loop leaves its bookkeeping behind)
+			loops := [][]string{{condLoop}, {countLoop, condLoop}, {condLoop, countLoop}, {countLoop}}[(id/2)%4]
+			fmt.Fprintf(&g, "func lk%d(n%d int) int {\nk%d := 0\n%sreturn k%d\n}\n", id, id, id, strings.Join(loops, ""), id)
 			for _, p := range params {
 				fmt.Fprintf(&g, "%s := %s\n", p[0], p[1])
 			}
